@@ -27,6 +27,26 @@ def parse_spec(spec, L):
     return (a, b)
 
 
+def clamp_spec(spec, L):
+    """the requested range cut down to the file: (first, last) inclusive, or None when the spec is malformed or nothing of it lies in the file"""
+    m = re.fullmatch(r"[ \t]*([0-9]*)[ \t]*-[ \t]*([0-9]*)[ \t]*", spec)
+    if not m or L == 0:
+        return None
+    a, b = m.group(1), m.group(2)
+    if a == "" and b == "":
+        return None
+    if a == "":
+        n = int(b)
+        return None if n == 0 else (max(L - n, 0), L - 1)
+    a = int(a)
+    if a >= L:
+        return None
+    if b == "":
+        return (a, L - 1)
+    b = int(b)
+    return None if a > b else (a, min(b, L - 1))
+
+
 def split_multipart(body, boundary):
     """-> list of (content_type, content_range_text, part_body) or None"""
     d = b"--" + boundary
@@ -141,6 +161,20 @@ class P(ServeProp):
                 return "content-length-differs-from-bytes-sent", set()
             parts = [(ct[0].encode() if ct else b"", cr[0], r["body"])]
         tags = set()
+        # "or a correctly labelled slice clamped to the file": when every spec is well formed and meets the file, a 206 carries, per spec and in
+        # order, the requested range cut down to the file - not some other slice, however well it is labelled
+        clamped = None
+        if wanted is None and val.startswith("bytes=") and "=" not in val[6:]:
+            cs = [clamp_spec(x, L) for x in val[6:].split(",")]
+            if cs and all(c is not None for c in cs):
+                clamped = cs
+        if clamped is not None:
+            if len(parts) != len(clamped):
+                return "part-count-%d-expected-%d" % (len(parts), len(clamped)), tags
+            for (pct, crt, body), (ca, cb) in zip(parts, clamped):
+                m = re.fullmatch(r"bytes (\d+)-(\d+)/(\d+)", crt)
+                if m and (int(m.group(1)) != ca or body != data[ca:cb + 1]):
+                    return "not-the-requested-range-clamped-to-the-file", tags
         if wanted is not None and len(parts) != len(wanted):
             return "part-count-%d-expected-%d" % (len(parts), len(wanted)), tags
         for i, (pct, crt, body) in enumerate(parts):
